@@ -399,6 +399,26 @@ except ImportError:  # pragma: no cover
     pass
 
 
+# The seedable generator of the `random` module (Mersenne Twister): its output is a function of the generator state, which any code in the process
+# may set (random.seed) - it is NOT a draw from the OS generator, so nothing is recorded in rng.drawn and `fresh_in_call` does not hold for it.
+import random as _random
+
+
+def _prng_bytes(it: Any, args: list, kwargs: dict, f: Any) -> Any:
+    n = args[0] if args else kwargs.get("n", 0)
+    _use(it, "random.<seedable generator>")
+    return it.p.fresh_bytes("prng", int_term(n))
+
+
+def _prng_int(it: Any, args: list, kwargs: dict, f: Any) -> Any:
+    _use(it, "random.<seedable generator>")
+    return it.p.fresh_int("prng", 0, None)
+
+
+model(_random.randbytes)(_prng_bytes)
+model(_random.getrandbits, _random.randint, _random.randrange)(_prng_int)
+
+
 # =================================================================================================================
 # A-pickle / A-fs: file system, locks and pickle as adversarial environments (C18)
 # =================================================================================================================
@@ -502,10 +522,51 @@ def _m_pickle_dump(it: Any, args: list, kwargs: dict, f: Any) -> Any:
     return None
 
 
+def ghost_exists(it: Any, path: Any) -> Any:
+    """Existence of a path the *specification* names: one fixed but unknown answer per path within the execution."""
+    key = ("fs.exists", path)
+    if key not in it.p.ghost:
+        it.p.ghost[key] = it.p.fresh_bool("exists")
+    return it.p.ghost[key]
+
+
 @model(_os.path.exists)
 def _m_exists(it: Any, args: list, kwargs: dict, f: Any) -> Any:
     _use(it, "os.path.exists")
-    return it.p.fresh_bool("exists")
+    if args and isinstance(args[0], str) and ("fs.exists", args[0]) in it.p.ghost:
+        return it.p.ghost[("fs.exists", args[0])]   # a path the specification talks about (ghost_exists): consistent answer
+    return it.p.fresh_bool("exists")                 # any other path: adversarial (may change between two questions)
+
+
+class _StatResult(ExtObject):
+    """A-fs: what os.stat reports for a path is a fixed but unknown property of the live file (same answer for the same path within one
+    execution): modification time in ns (any 61-bit value, i.e. years 2006-2043) and size (any 16-bit value, 32-64 KiB) - the value classes are
+    instantiation bounds that pin the bit length (hence the byte count of the minimal encodings), the values inside are arbitrary."""
+
+    def __init__(self, mtime: Any, size: Any):
+        self.st_mtime_ns, self.st_size = mtime, size
+
+    def vf_attr(self, it: Any, name: str) -> Any:
+        if name in ("st_mtime_ns", "st_size"):
+            return getattr(self, name)
+        raise Unsupported(f"os.stat_result.{name}")
+
+
+def ghost_stat(it: Any, path: Any) -> Any:
+    if not isinstance(path, str):
+        raise Unsupported("os.stat of a symbolic path")
+    key = ("fs.stat", path)
+    if key not in it.p.ghost:
+        it.p.ghost[key] = (it.p.fresh_int("mtime_ns", 1 << 60, (1 << 61) - 1), it.p.fresh_int("size", 1 << 15, (1 << 16) - 1))
+    return it.p.ghost[key]
+
+
+@model(_os.stat)
+def _m_stat(it: Any, args: list, kwargs: dict, f: Any) -> Any:
+    _use(it, "os.stat")
+    if it.p.choose(2, "os.stat-fails") == 1:
+        raise PyRaise(SExc(FileNotFoundError, ()))
+    return _StatResult(*ghost_stat(it, args[0]))
 
 
 @model(_os.remove)
